@@ -1241,7 +1241,7 @@ pub fn linear_wide(rec: &mut Recorder, rng: &mut Rng, thorough: bool) {
 // Unchecked builds only (checked builds re-verify the solver's matrix in O(L^3)).
 pub fn linear_huge_blocks(rec: &mut Recorder, rng: &mut Rng, thorough: bool) {
     if checked_build() { return; }
-    let cases: Vec<(u32, u16)> = if thorough { vec![(40000, 56), (56403, 40), (33000, 63), (56403, 63), (20000, 120)] } else { vec![(40000 + rng.below(9000) as u32, 37 + rng.below(27) as u16)] };
+    let cases: Vec<(u32, u16)> = if thorough { vec![(40000, 56), (56403, 40), (33000, 63), (56403, 63), (20000, 120)] } else { vec![(44000 + rng.below(12403) as u32, 50 + rng.below(14) as u16)] };
     for (k, t) in cases {
         let data = rng.bytes(k as usize * t as usize);
         let cols: Vec<usize> = vec![0, t as usize - 1, rng.below(t as u64) as usize];
